@@ -160,6 +160,14 @@ class _Spell(ast.NodeTransformer):
                 inner = ast.Call(func=f, args=[], keywords=[ast.keyword(arg="axis", value=ax)])
                 return ast.copy_location(ast.Call(func=ast.Name(id="expand_dims", ctx=ast.Load()), args=[inner],
                                                   keywords=[ast.keyword(arg="axis", value=copy.deepcopy(ax))]), n)
+        # X.diagonal() -> diagonal(X);  A.dot(B) -> A @ B   (for the 1-D / 2-D arrays of this package `dot` is the matrix product)
+        if isinstance(f, ast.Attribute) and f.attr == "diagonal" and not n.args and not n.keywords and "diagonal" in self.np:
+            self.k += 1
+            return ast.copy_location(ast.Call(func=ast.Name(id="diagonal", ctx=ast.Load()), args=[f.value], keywords=[]), n)
+        if isinstance(f, ast.Attribute) and f.attr == "dot" and len(n.args) == 1 and not n.keywords \
+                and not (isinstance(f.value, ast.Name) and f.value.id in ("np", "numpy")):
+            self.k += 1
+            return ast.copy_location(ast.BinOp(left=f.value, op=ast.MatMult(), right=n.args[0]), n)
         name = f.id if isinstance(f, ast.Name) else None
         npn = self.np.get(name) if name else None
         # concatenate((a, b), axis=k) -> append(a, b, axis=k)   (numpy.append is exactly that concatenation when axis is given)
@@ -360,6 +368,30 @@ def _unstar_zip(tree):
     return k
 
 
+def _split_tuple_assignments(tree):
+    """`a, b = X, Y` (no target read on the right-hand side: not a swap) is `a = X; b = Y`."""
+    k = 0
+    for node in ast.walk(tree):
+        for nm in ("body", "orelse", "finalbody"):
+            blk = getattr(node, nm, None)
+            if not (isinstance(blk, list) and blk and isinstance(blk[0], ast.stmt)):
+                continue
+            out = []
+            for st in blk:
+                if isinstance(st, ast.Assign) and len(st.targets) == 1 and isinstance(st.targets[0], ast.Tuple) and isinstance(st.value, ast.Tuple) \
+                        and len(st.targets[0].elts) == len(st.value.elts) and all(isinstance(t, ast.Name) for t in st.targets[0].elts) \
+                        and not any(isinstance(x, ast.Starred) for x in st.value.elts):
+                    names = {t.id for t in st.targets[0].elts}
+                    if not any(isinstance(x, ast.Name) and x.id in names for v in st.value.elts for x in ast.walk(v)):
+                        for t, v in zip(st.targets[0].elts, st.value.elts):
+                            out.append(ast.copy_location(ast.Assign(targets=[t], value=v, lineno=st.lineno), st))
+                        k += 1
+                        continue
+                out.append(st)
+            setattr(node, nm, out)
+    return k
+
+
 def respell(tree):
     np_names = {}
     for st in tree.body:
@@ -376,6 +408,7 @@ def respell(tree):
     n += _flag_loops(tree)
     n += _getattr_guard(tree)
     n += _unstar_zip(tree)
+    n += _split_tuple_assignments(tree)
     n += _keywordise_self_calls(tree)
     if n:
         ast.fix_missing_locations(tree)
